@@ -89,7 +89,20 @@ thread_local! { static IN_GUARD: std::cell::Cell<u32> = std::cell::Cell::new(0);
 static CALL_STARTED_MS: std::sync::atomic::AtomicU64 = std::sync::atomic::AtomicU64::new(0);
 static CALLS: std::sync::atomic::AtomicU64 = std::sync::atomic::AtomicU64::new(0);
 
-fn now_ms() -> u64 { std::time::SystemTime::now().duration_since(std::time::UNIX_EPOCH).map(|d| d.as_millis() as u64).unwrap_or(0) }
+/// milliseconds on the MONOTONIC clock since the first call, never 0 (the watchdogs must not follow a stepped wall clock)
+pub fn mono_ms() -> u64 {
+    static START: std::sync::OnceLock<std::time::Instant> = std::sync::OnceLock::new();
+    START.get_or_init(std::time::Instant::now).elapsed().as_millis() as u64 + 1
+}
+fn now_ms() -> u64 { mono_ms() }
+
+/// A steppable wall clock. The harness binary interposes `clock_gettime` (see bin/rvh.rs): CLOCK_REALTIME is shifted by this
+/// many seconds for everything linked into the process - the code under test's `SystemTime::now()` and the harness's own
+/// bracketing readings alike - so a driver can make the system clock jump backwards or forwards between two batches
+/// (an operator or NTP correcting the clock, a VM restored from a snapshot). All other clocks are untouched.
+pub static REALTIME_SHIFT_SECS: std::sync::atomic::AtomicI64 = std::sync::atomic::AtomicI64::new(0);
+pub fn step_clock(secs: i64) { REALTIME_SHIFT_SECS.fetch_add(secs, std::sync::atomic::Ordering::SeqCst); }
+pub fn unstep_clock() { REALTIME_SHIFT_SECS.store(0, std::sync::atomic::Ordering::SeqCst); }
 
 /// A call into the code under test that does not come back is a finding, not a harness failure: after `limit_ms` the
 /// watchdog prints a `hang` record (suite, mode, ordinal of the call - runs are deterministic for a seed) and ends the run.
